@@ -914,7 +914,8 @@ func (c *compiler) compileStatementsNeedResult(list []ast.Statement, lastProduci
 			leave()
 		}
 	}()
-	for _, st := range list[lastProducingIdx+1:] {
+	rest := list[lastProducingIdx+1:]
+	for i, st := range rest {
 		if _, ok := st.(*ast.FunctionDeclaration); ok {
 			continue
 		}
@@ -922,6 +923,9 @@ func (c *compiler) compileStatementsNeedResult(list []ast.Statement, lastProduci
 		if leave == nil {
 			if _, ok := st.(*ast.BranchStatement); ok {
 				leave = c.enterDummyMode()
+				// the dead code that follows is compiled in a scope of its own: give it the
+				// bindings for the lexical declarations it contains
+				c.compileLexicalDeclarations(rest[i+1:], true)
 			}
 		}
 	}
